@@ -98,7 +98,8 @@ pub fn domain(dc: &Decaf, quick: bool) -> Vec<BigUint> {
     for pat in crate::fields::s_limb(q, 32, &[0, 0xFFFF_FFFF]) {
         v.push(pat);
     }
-    // solutions of the singular loci (none should be hit: reported in evidence)
+    // unstructured members: a fixed pseudo-random family
+    v.extend(crate::fields::prand(0x07, if quick { 1 << 12 } else { 1 << 16 }, q));
     crate::fields::dedup(v)
 }
 
